@@ -257,7 +257,11 @@ func GenDispatchProgram(t *rapid.T, prof DispatchProfile) *Program {
 		}
 		switch {
 		case k < 5:
-			p.Steps = append(p.Steps, Step{Op: "publish", Batch: rapid.IntRange(0, 1).Draw(t, "route"), Pad: rapid.IntRange(0, 3).Draw(t, "extra") == 0})
+			st := Step{Op: "publish", Batch: rapid.IntRange(0, 1).Draw(t, "route"), Pad: rapid.IntRange(0, 3).Draw(t, "extra") == 0}
+			if rapid.IntRange(0, 3).Draw(t, "lowerhdr") == 2 {
+				st.Reason = "lower"
+			}
+			p.Steps = append(p.Steps, st)
 		case k < 13:
 			p.Steps = append(p.Steps, Step{Op: "tick", Batch: rapid.IntRange(0, 7).Draw(t, "worker")})
 		case k < 17 || !prof.Interleave:
